@@ -1016,6 +1016,8 @@ class TiltHooks(Hooks):
         fn = ev['fn']
         tag = ev.get('t', {})
         if not fn.startswith('check.'):
+            if tag.get('fft_attempt'):
+                it.probe('fft_attempt_before_dft')
             if tag.get('expect') == 'ok' and not out.ok:
                 it.violate('C04.equiv', {'what': 'step-raised', 'fn': fn, 'exc': type(out.exc).__name__}, '%s raised %r' % (fn, out.exc), i)
             return
@@ -1115,7 +1117,7 @@ class TiltScenario(OpticsBase):
                 'carrier:wavefront-tilt', 'carrier:fit', 'carrier:refit', 'carrier:dispersive', 'carrier:wavefront-tilt+fit',
                 'carrier:tilt-planes-before-pupil', 'carrier:fan-out', 'carrier:same-wavefront-resampled', 'carrier:same-tilt-twice',
                 'trace_order:1/1', 'carrier:fit-inplace', 'noncontiguous_opd', 'carrier:dispersive-high-order', 'trace_negative_arc',
-                'trace_negative_arc_high_order', 'dispersive_blue', 'dispersive_red', 'pupil_per_axis_pixels', 'output_mask', 'fit:fit-rescale-refit', 'segment_off_detector', 'trace_after_update', 'fit:fit-update-refit']
+                'trace_negative_arc_high_order', 'dispersive_blue', 'dispersive_red', 'pupil_per_axis_pixels', 'output_mask', 'fit:fit-rescale-refit', 'segment_off_detector', 'trace_after_update', 'fit:fit-update-refit', 'fft_attempt_before_dft']
     probe_names = must_hit + ['coldwarm_audit', 'no_common_samples', 'trace_order:2/1', 'trace_order:1/2', 'trace_order:2/2', 'trace_order:3/1']
 
     def program(self, rng, world, force=None):
@@ -1190,6 +1192,9 @@ class TiltScenario(OpticsBase):
                 w1 = b.E(rng.choice(['Plane.multiply', 'w*p']), ['@' + t, '@' + w1], t={'expect': 'ok'}, tag='w')
                 if b.events[-1]['fn'] == 'w*p':
                     b.events[-1]['a'] = b.events[-1]['a'][::-1]
+            if rng.random() < 0.12:
+                # (not judged: propagate_fft refuses wavefronts that carry tilt; whatever it does, it leaves the wavefront alone)
+                b.E('propagate_fft', ['@' + w1], {'pixelscale': pk['pixelscale'], 'oversample': pk['oversample']}, t={'fft_attempt': True}, tag='x')
             wi = b.E('propagate_dft', ['@' + w1], dict(pk), t={'expect': 'ok'}, tag='w')
             return w1, wi
 
